@@ -19,11 +19,13 @@ CLAIMED = {
  'C09': ('proof', 'MosCollection.merge loop invariant + per-iteration ghost call log: exactly one add of the freshly restored message k per iteration, strict/non-strict warning and propagation clauses; __add__ against the abstract merge contract', '5/C09'),
  'C11': ('proof', 'MosCollection.__init__/_validate: accepted iff one roCreate, <=1 roDelete (exactly 1 unless allow_incomplete), equal roIDs, non-empty -- for symbolic list length and symbolic python -O flag; filtered comprehensions as monotone embeddings', '5/C11'),
  'C12': ('proof', 'safety obligations at every operation that can raise a built-in exception on every path of all merges, classification and constructors: only MosRoMgrException subclasses escape', '5/C12'),
+ 'C10': ('proof', 'MosReader.__lt__ / MosFile.__lt__ compare numeric message ids; from_strings / from_files hand the constructor a permutation of all inputs without adjacent inversion (sorted is an assumed contract evaluated with the real __lt__); uniqueness of the ascending arrangement is a Lean/Mathlib lemma', '5/C10'),
+ 'C20': ('proof', '42 accessors of the 20 message classes with targets/sources + MosElement.id + 24 inspect() methods: exposed ids are exactly the texts of the named ID tags in message order, blank target -> None, inspect never raises and mentions every source', '5/C20'),
 }
 REASON_TODO = 'check not built yet (build in progress); not a statement about reachability of the technique'
 m = {
  'version': 1,
- 'setup_cmd': 'python3-vt -m compileall -q pyvc contracts replay >/dev/null; true',
+ 'setup_cmd': 'python3-vt -m compileall -q pyvc contracts replay >/dev/null; tools/check_lemmas.sh',
  'hooks': {'guard': 'BBC_MOSROMGR_VERIF', 'enable': 'none needed: contracts are sidecar files in /verif and the replay oracle uses the public API; /repo is not instrumented',
            'baseline_off_cmd': 'cd /repo && /venv/bin/python -m pytest -q -p no:cacheprovider', 'source_commits': [], 'add_only': True},
  'engines': [{'name': 'pyvc', 'path': 'pyvc/', 'serves_properties': sorted(CLAIMED), 'kind_free_text': 'ast -> SMT verification-condition generator with sidecar contracts (z3/cvc5)'},
